@@ -40,8 +40,10 @@ SurfCap == 4143040          \* 88.9 degrees in lattice units
 Bound(ev) ==
   /\ ev.kind \in Kinds /\ ev.i \in {0, 1}
   /\ InLattice(ev.L, ev.M)
-  /\ ev.p = ev.i
-  /\ ev.yz = YZ(ev.kind, ev.i, ev.L) /\ ev.xz = XZ(ev.kind, ev.i, ev.L, ev.M)
+  \* f = <<parity, lat_cpr, lon_cpr>> as rs1090 parsed the frame; <<-1,0,0>> / <<-2,0,0>>: it
+  \* rejected the (valid) frame / panicked: the outcome is then "none" / "panic", judged below
+  /\ \/ ev.f[1] < 0 /\ ev.r.o \in {"none", "panic"}
+     \/ ev.f = <<ev.i, YZ(ev.kind, ev.i, ev.L), XZ(ev.kind, ev.i, ev.L, ev.M)>>
   /\ IsMicro(ev.rlat) /\ IsMicro(ev.rlon)
   /\ ev.dref \in 0..FARAWAY
 
